@@ -21,7 +21,7 @@ func TestSim(t *testing.T) {
 	if mode == "" {
 		t.Skip("driven by /verif/check")
 	}
-	debug.SetMaxStack(256 << 20) // a runaway recursion dies quickly
+	debug.SetMaxStack(32 << 20) // a runaway recursion dies quickly (the library itself recurses a few hundred frames at most)
 	initRaceLog()
 	out, err := os.OpenFile(os.Getenv("SIM_OUT"), os.O_CREATE|os.O_WRONLY|os.O_APPEND, 0o644)
 	if err != nil {
